@@ -120,7 +120,7 @@ func c09Case(rt *rapid.T, rec *vt.Rec) {
 	}
 	n := rapid.IntRange(3, 16).Draw(rt, "steps")
 	for k := 0; k < n; k++ {
-		op := rapid.SampledFrom([]string{"connect", "connect", "close", "close", "probe", "closeDuring", "advance"}).Draw(rt, "op")
+		op := rapid.SampledFrom([]string{"connect", "connect", "close", "close", "probe", "closeDuring", "reregDuring", "advance"}).Draw(rt, "op")
 		switch op {
 		case "connect":
 			h := rapid.IntRange(0, nHosts-1).Draw(rt, "host")
@@ -153,6 +153,64 @@ func c09Case(rt *rapid.T, rec *vt.Rec) {
 		case "advance":
 			d := time.Duration(rapid.Int64Range(1, int64(3*time.Second)).Draw(rt, "advance"))
 			time.Sleep(d)
+		case "reregDuring":
+			// a peer request has picked the host's connection but not yet written to it; meanwhile the host
+			// re-registers on a new connection and the old one closes; the late write then fails
+			var live []int
+			for i := 0; i < nHosts; i++ {
+				if _, ok := s.model.liveHost(s.agents[i].id.nodeID); ok {
+					live = append(live, i)
+				}
+			}
+			if len(live) == 0 {
+				continue
+			}
+			h := rapid.SampledFrom(live).Draw(rt, "victim")
+			cid, _ := s.model.liveHost(s.agents[h].id.nodeID)
+			var old *agentConn
+			for _, ac := range s.agents[h].conns {
+				if ac.id == cid {
+					old = ac
+				}
+			}
+			entered := make(chan struct{}, 8)
+			release := make(chan struct{})
+			old.c.poolEnd.mu.Lock()
+			old.c.poolEnd.gate = func() {
+				entered <- struct{}{}
+				<-release
+			}
+			old.c.poolEnd.mu.Unlock()
+			type res struct {
+				resp *pool.PeerResponse
+				err  error
+			}
+			done := make(chan res, 1)
+			go func() {
+				resp, err := s.peer(client, 3, "")
+				done <- res{resp, err}
+			}()
+			<-entered
+			ac2 := s.openConn(h, "")
+			s.model.connect(s.agents[h].id.nodeID, ac2.id, true, "geth", "")
+			if err := s.connect(h, ac2, true, "geth", ""); err != nil {
+				fail("host reconnect: %v", err)
+			}
+			// close the old connection while the write is still held (Close must not wait for the gated writer)
+			old.c.poolEnd.mu.Lock()
+			old.c.poolEnd.gate = nil
+			old.c.poolEnd.mu.Unlock()
+			old.c.agentEnd.Close()
+			old.open = false
+			s.model.closeConn(old.id)
+			synctest.Wait()
+			close(release)
+			r := <-done
+			<-old.c.served
+			logf("peer request holds its write to conn#%d of %s; %s re-registers on conn#%d; conn#%d closes; write released -> err=%v", cid, s.agents[h].id.name, s.agents[h].id.name, ac2.id, cid, r.err)
+			classes["rereg-during-request"] = true
+			classes["reconnect"] = true
+			classes["close-noncurrent"] = true
 		case "closeDuring":
 			// close a host's current connection while its whitelist call is in flight
 			var live []int
